@@ -53,8 +53,13 @@ class Lex:
     def __init__(self, ctx, rng):
         self.ctx, self.rng, self.enum_idx = ctx, rng, {}
 
+    nag_over = False  # C17 sets this: warn-only strings are then written over their limit
+
     def string(self, t):
         rng = self.rng
+        if self.nag_over and type(t).__name__ == "NagString" and t.length:
+            text = "N" * (t.length + 1 + rng.randint(0, 7))
+            return text, text
         cap = t.length if t.length is not None else 40
         n = rng.randint(1, max(1, min(cap, 12)))
         chars = [rng.choice("abcXYZ019 .-_/&<>'\"éü€") for _ in range(n)]
@@ -93,6 +98,8 @@ class Lex:
         scale = None if t.scale is None else -t.scale.as_tuple().exponent
         places = rng.randint(0, scale) if scale is not None else rng.choice([0, 1, 2, 2, 4, 6])
         n = rng.randint(0, 10**rng.randint(1, 10))
+        if scale is None and rng.random() < 0.06:
+            n = rng.randint(10**30, 10**34)  # > 28 significant digits: the value must not depend on the arithmetic context
         base = D(n).scaleb(-places)
         s = format(base, "f")
         if rng.random() < 0.3 and "." in s and s.startswith("0."):
